@@ -38,6 +38,7 @@ def one_history(rep, rng, dev, hid):
     mult = rng.choice([0.25, 0.5, 0.1, 0.75, 0.33])
     max_retries = rng.randint(0, 5)
     nsteps = rng.randint(window + 3, window + 14)
+    screening = adaptive and rng.random() < 0.25
     # refusal script: number of refused attempts per step
     script = []
     for i in range(nsteps + 5):
@@ -48,9 +49,11 @@ def one_history(rep, rng, dev, hid):
             script.append(rng.randint(1, max_retries + 1))
         else:
             script.append(max_retries + 2 if rng.random() < 0.5 else rng.randint(1, max_retries + 1))
-    if not adaptive and rng.random() < 0.5:
+    if (not adaptive and rng.random() < 0.5) or screening:
+        # with screening the Euler step runs once per self-consistency iteration, each with its own retry counter: the
+        # single retry loop of Model.Adapt does not describe that; those histories exercise the bookkeeping only
         script = [0] * len(script)
-    cfg = dict(id=hid, adaptive=adaptive, dt_init=dt_init, dt_max=dt_max, window=window, mult=mult, max_retries=max_retries,
+    cfg = dict(id=hid, screening=screening, adaptive=adaptive, dt_init=dt_init, dt_max=dt_max, window=window, mult=mult, max_retries=max_retries,
                script=script[:nsteps + 2])
     steps = []
     dmax_bad = []
@@ -59,7 +62,9 @@ def one_history(rep, rng, dev, hid):
     with tempfile.TemporaryDirectory(prefix="pyt_c12_") as td:
         opts = runs.make_options(td, solve_time=1e9, dt_init=dt_init, dt_max=dt_max, adaptive=adaptive, adaptive_window=window,
                                  adaptive_time_step_multiplier=mult, max_solve_retries=max_retries,
-                                 save_every=rng.choice([1, 2, 3, 5, 1000]))     # the rule must not see the save interval
+                                 save_every=rng.choice([1, 2, 3, 5, 1000]),     # the rule must not see the save interval
+                                 # ... nor the screening iterations (one recorded value per solve step, not per iteration)
+                                 **(dict(include_screening=True, screening_tolerance=1e-2) if screening else {}))
         solver = TDGLSolver(dev, opts, applied_vector_potential=0.4, terminal_currents={"source": 2.0, "drain": -2.0})
         orig_static = TDGLSolver.solve_for_psi_squared
         orig_update = solver.update
@@ -115,6 +120,12 @@ def one_history(rep, rng, dev, hid):
     for b in dmax_bad:
         rep.not_shown("correspondence: the recorded max |d|psi|^2| differs from Model.Update.dmax of the step's input and result",
                       {**{k: cfg[k] for k in ("adaptive", "window")}, **b})
+    if screening and (raised or any(st_["refusals"] for st_ in steps)):
+        # a genuine refusal inside a screening iteration is not comparable (see above): keep the steps before it
+        first = next((k for k, st_ in enumerate(steps) if st_["refusals"] or st_["dt_used"] is None), len(steps))
+        steps, raised = steps[:first], None
+        if len(steps) <= window + 1:
+            cfg["skip_model"] = True
     return cfg, steps, raised
 
 
@@ -149,6 +160,9 @@ def oracle(rep, cfg, steps, raised):
         if st["step"] > cfg["window"]:
             delta = max(1e-10, float(np.mean(vals[-cfg["window"]:])))
             tent = min(0.5 * (st["dt_used"] + cfg["dt_init"] / delta), cfg["dt_max"])
+            if "tentative_after" in st and abs(st["tentative_after"] - tent) > 1e-12 * tent:
+                rep.violation(f"proposal after the step {st['tentative_after']!r} differs from the documented "
+                              f"min(1/2 (dt + dt_init/delta), dt_max) = {tent!r}", {**c, "screening": cfg.get("screening", False)})
             if tent < cfg["dt_max"]:
                 rep.coverage["unclipped_proposals"] = rep.coverage.get("unclipped_proposals", 0) + 1
                 if st["refusals"] > 0:
@@ -165,6 +179,9 @@ def run(rep: common.Report, tier: str, seed: int, replay=None) -> int:
     hs = []
     for hid in range(nh):
         cfg, steps, raised = one_history(rep, rng, dev, hid)
+        if cfg.get("skip_model"):
+            rep.coverage["screening_histories_with_refusals_skipped"] = rep.coverage.get("screening_histories_with_refusals_skipped", 0) + 1
+            continue
         oracle(rep, cfg, steps, raised)
         hs.append((cfg, steps, raised))
         rep.count(len(steps))
